@@ -110,51 +110,27 @@ fn run(a: &vhcore::Args) -> i32 {
         println!("types={} value_cases={n_valid} invalid_cases={n_invalid} positions={spots_total}", sp.types.len());
         return 0;
     }
+    let plan = stages(&cases, max_edges > 2, env_usize("VH_C10_CHUNK_TYPES", 2500));
     let mut pool = Pool::new(a.jobs, vhcore::work_dir("C10"));
     pool.timeout = std::time::Duration::from_secs(1500);
-    let profiles: Vec<bool> = if thorough { vec![false, true] } else { vec![false] };
-    let mut evals = 0u64;
     let mut outcomes = vhcore::Distinct::default();
     let mut nontrivial = vhcore::Distinct::default();
-    let mut self_check = String::new();
-    let (mut packages, mut rebuilt, mut total_fail, mut total_confirmed) = (0usize, 0usize, 0usize, 0usize);
     let mut flag_types: BTreeMap<String, BTreeSet<String>> = BTreeMap::new();
+    let mut per_type_flags: BTreeMap<(String, bool), BTreeSet<(bool, bool)>> = BTreeMap::new();
     let mut revert_codes: BTreeMap<String, u64> = BTreeMap::new();
     let mut mem_checked = 0u64;
-    for (pi, release) in profiles.iter().enumerate() {
-        let cfg = RunCfg {
-            prefix: format!("c10{}", if *release { "r" } else { "d" }),
-            release: *release,
-            max_cases: env_usize("VH_C10_BATCH", 150).min((cases.len() / (2 * a.jobs.max(1))).max(24)),
-            max_words: 2500,
-        };
-        let sel: Vec<Case> = if *release {
-            cases.iter().filter(|c| c.ty.edges() <= 2).cloned().collect()
-        } else {
-            cases.clone()
-        };
-        let cases = &sel;
-        let t0 = std::time::Instant::now();
-        let run = run_cases(&pool, cases, &cfg, pi == 0);
-        eprintln!(
-            "[C10] profile release={release}: {} cases in {} packages ({} rebuilt), {:.1}s wall, {:.1}s summed build+run time",
-            cases.len(),
-            run.packages,
-            run.rebuilt_packages,
-            t0.elapsed().as_secs_f64(),
-            run.compile_millis as f64 / 1000.0
-        );
-        if pi == 0 {
-            self_check = run.self_check.clone();
-        }
-        packages += run.packages;
-        rebuilt += run.rebuilt_packages;
-        let mut per_type_flags: BTreeMap<String, BTreeSet<(bool, bool)>> = BTreeMap::new();
-        for (c, r) in cases.iter().zip(&run.cases) {
-            evals += 1;
+    let camp = run_stages(
+        &mut rep,
+        &pool,
+        &cases,
+        &plan,
+        "c10",
+        env_usize("VH_C10_BATCH", 150),
+        env_usize("VH_C10_BUDGET_S", 660) as u64,
+        &mut |c, r, release| {
             outcomes.add(&format!("{:?}", r.outcome));
             if let Some(f) = r.judged.flags {
-                per_type_flags.entry(c.ty.show()).or_default().insert(f);
+                per_type_flags.entry((c.ty.show(), release)).or_default().insert(f);
                 let k = format!("encode_trivial={} decode_trivial={}", f.0, f.1);
                 flag_types.entry(k).or_default().insert(c.ty.show());
                 if f.0 || f.1 {
@@ -166,25 +142,20 @@ fn run(a: &vhcore::Args) -> i32 {
             }
             if r.judged.fails.is_empty() {
                 match &c.kind {
-                    Kind::Invalid { bytes, slow, .. } => nontrivial.add(&(c.ty.show(), bytes, slow)),
-                    _ => nontrivial.add(&(c.ty.show(), &c.canonical)),
+                    Kind::Invalid { bytes, slow, .. } => nontrivial.add(&(c.ty.show(), bytes, slow, release)),
+                    _ => nontrivial.add(&(c.ty.show(), &c.canonical, release)),
                 }
             }
+        },
+    );
+    for ((t, _), fs) in &per_type_flags {
+        if fs.len() != 1 {
+            vhcore::machinery_failure(&format!("classification of {t} varies between values: {fs:?}"));
         }
-        for (t, fs) in &per_type_flags {
-            if fs.len() != 1 {
-                vhcore::machinery_failure(&format!("classification of {t} varies between values: {fs:?}"));
-            }
-        }
-        let (f, c) = report_failures(&mut rep, &pool, cases, &run, &cfg, 1);
-        total_fail += f;
-        total_confirmed += c;
     }
+    let (evals, total_fail) = (camp.evals, camp.failing);
     if outcomes.len() < 2 {
         vhcore::machinery_failure("vacuous: fewer than 2 distinct observed outcomes");
-    }
-    if self_check == "not-run" || self_check.is_empty() {
-        vhcore::machinery_failure("Mode F = Mode A self-check did not run");
     }
     let classes: BTreeMap<String, u64> = flag_types.iter().map(|(k, v)| (k.clone(), v.len() as u64)).collect();
     let any_e = flag_types.keys().any(|k| k.contains("encode_trivial=true"));
@@ -211,14 +182,14 @@ fn run(a: &vhcore::Args) -> i32 {
     rep.set("value_cases_with_memory_bytes_compared", mem_checked);
     rep.set("types_by_classification", json!(classes));
     rep.set("revert_codes_observed", json!(revert_codes));
-    rep.set("profiles", json!(profiles.iter().map(|r| if *r { "release" } else { "debug" }).collect::<Vec<_>>()));
+    rep.set("stages", json!(camp.stages_done));
     rep.set("distinct_outcomes", outcomes.len() as u64);
-    rep.set("packages", packages as u64);
-    rep.set("packages_rebuilt_by_bisection", rebuilt as u64);
+    rep.set("packages", camp.packages as u64);
+    rep.set("packages_rebuilt_by_bisection", camp.rebuilt as u64);
     rep.set("failing_cases", total_fail as u64);
-    rep.set("failing_cases_confirmed_alone_modeA", total_confirmed as u64);
-    rep.set("modeF_equals_modeA", self_check);
-    rep.set("exhaustive", true);
+    rep.set("failing_cases_confirmed_alone_modeA", camp.confirmed as u64);
+    rep.set("modeF_equals_modeA", camp.self_check.clone());
+    rep.set("exhaustive", camp.exhaustive);
     rep.set("value_product_cap", cap as u64);
     for i in [0usize, cases.len() / 7, cases.len() / 3, cases.len() / 2, cases.len() - 1] {
         let c = &cases[i];
